@@ -42,8 +42,11 @@ type concSpec struct {
 	ReplayFunc  string              `json:"replay_func"`
 	// a blocked state only counts as a deadlock if some thread runs a trace with this mark
 	// (waiting for a signal nobody was asked to send is not a defect of the code under test)
-	DeadlockIfMark string   `json:"deadlock_if_mark"`
-	Expect         []string `json:"expect_marks"`
+	DeadlockIfMark string `json:"deadlock_if_mark"`
+	// quick tier: beyond Threads[0] threads, one more thread is explored for the assignments in which at
+	// most one thread runs a template outside this list (they are decided in seconds)
+	QuickLight []string `json:"quick_light_templates"`
+	Expect     []string `json:"expect_marks"`
 }
 
 type concTemplate struct {
@@ -772,9 +775,34 @@ func runConc(ld *loaded, sp *concSpec, pkgDir string, tier tierCfg, known []*sym
 		timeoutS = 600
 	}
 	seen := map[string]bool{}
-	for n := 2; n <= T; n++ {
+	maxN := T
+	if tier.idx == 0 && len(sp.QuickLight) > 0 {
+		maxN = T + 1
+	}
+	for n := 2; n <= maxN; n++ {
 		var combos [][]int
 		multisets(n, 0, nil, &combos)
+		if n > T {
+			var keep [][]int
+			for _, c := range combos {
+				heavy := 0
+				for _, ti := range c {
+					light := false
+					for _, l := range sp.QuickLight {
+						if tpls[ti].Name == l {
+							light = true
+						}
+					}
+					if !light {
+						heavy++
+					}
+				}
+				if heavy <= 1 {
+					keep = append(keep, c)
+				}
+			}
+			combos = keep
+		}
 		results := make([]*jobResult, len(combos))
 		var wg sync.WaitGroup
 		sem := make(chan struct{}, 14)
@@ -797,7 +825,7 @@ func runConc(ld *loaded, sp *concSpec, pkgDir string, tier tierCfg, known []*sym
 			unsat += jr.unsat
 			sat += jr.sat
 			unknown += jr.unknown
-			if n == 2 {
+			if n == 2 || tier.idx == 0 {
 				unknownBase += jr.unknown
 			}
 			obligations += jr.obligations
